@@ -35,6 +35,9 @@ def step (p : St) (op : String) (args : List String) : Option (St × String) :=
   | "get", [id] =>
     let (p', r) := getByID p id
     pure (p', match r with | some s => swStr s | none => "err")
+  | "getpar", [id, _] =>   -- concurrent look-ups of one id: one shared describe call, cached like a single look-up
+    let (p', r) := getByID p id
+    pure (p', match r with | some s => swStr s | none => "err")
   | "block", [id] => pure (block p id, "ok")
   | "one", [pol, zone, ign, ids] => do
     let pol ← policy? pol
